@@ -55,7 +55,7 @@ CHECKS["C02"] = dict(
    design="7/C02")
 CHECKS["C03"] = dict(
    category="exploration",
-   text="What is PROVED (QSP/Properties/C03.lean): in exact arithmetic every inside/outside selection of the root pairs yields the same self-reciprocal product up to a non-zero constant absorbed by the normalisation (completion_any_seed, completion_normalised), so the algorithm cannot fail on account of the random choice; and every returned result is judged by the proven validators of C01 / C02. What is EXPLORED: that the binary64 pipeline also succeeds on the two stated families - per sampled polynomial ALL 2^k seed vectors are forced (complete enumeration for k<=7 quick / 12 thorough) and a raise is a violation with (polynomial, seed bits) as replay.",
+   text="What is PROVED (QSP/Properties/C03.lean): in exact arithmetic every inside/outside selection of the root pairs yields the same self-reciprocal product up to a non-zero constant absorbed by the normalisation (completion_any_seed, completion_normalised), so the algorithm cannot fail on account of the random choice; and every returned result is judged by the proven validators of C01 / C02. What is EXPLORED: that the binary64 pipeline also succeeds on the two stated families - per sampled polynomial ALL 2^k seed vectors are forced (complete enumeration for k<=7 quick / 12 thorough) and a raise is a violation with (polynomial, seed bits) as replay. Besides sampled members the run visits structured ones: members written in the monomial basis with exact zeros, exact corners e^{ia} x^d, mirror / anti-mirror / equal / zero / alternating interior phases, and members constructed by bisection on either side of a collision of two real roots of 1 - F F~ (an inner conjugate pair with imaginary part 1e-8..1e-2, or two more real roots). One residual genuine defect (mirror-symmetric even-degree Wx/z corners, about 0.7% CompletionError) is recorded in known_findings.json and replayed from corpus/C03; two were repaired (fix commits d549347, 0c7ef81).",
    note='''Trusted: Lean kernel + Mathlib, axioms propext/Classical.choice/Quot.sound, the compiled model driver executing the validator, the Python harness (float->Fraction, seed forcing by patching numpy.random.randint in the harness process, generators). ''' + "Success of floating-point root finding / least squares on a family of inputs is not a theorem one can prove here (DESIGN.md section 9); the family itself is sampled.",
    technique="Lean 4 theorem on the exact-arithmetic algorithm + exhaustive seed enumeration on sampled family members + proven validators",
    design="7/C03")
@@ -79,8 +79,8 @@ CHECKS["C06"] = dict(
    design="7/C06")
 CHECKS["C07"] = dict(
    category="translation_validation",
-   text="Proven validator: validC07_sound shows that acceptance implies n+1 phases and |A(w)/suc - p(w)| < eps at EVERY point of the unit circle, A = (Ucirc theta phi)_00 the identity part of the Wz sequence DEFINED by the phases. Each run calls angle_sequence(p, eps, suc) on ~220 (p, eps, suc, seed vector) cases in and around the stated box and applies the validator; a raise inside the box is a violation unless it is the listed known finding (tiny capitalised extreme coefficient), which is replayed from the corpus on every run.",
-   note='''Trusted: Lean kernel + Mathlib, axioms propext/Classical.choice/Quot.sound, the compiled model driver executing the validator, the Python harness (float->Fraction, seed forcing by patching numpy.random.randint in the harness process, generators). ''' + "That the pipeline returns inside the box is explored. One genuine defect is recorded in known_findings.json.",
+   text="Proven validator: validC07_sound shows that acceptance implies n+1 phases and |A(w)/suc - p(w)| < eps at EVERY point of the unit circle, A = (Ucirc theta phi)_00 the identity part of the Wz sequence DEFINED by the phases. Each run calls angle_sequence(p, eps, suc) on ~400 (p, eps, suc, seed vector) cases in and around the stated box, as a session (constant, out-of-box, zero-ended, decaying, threshold-adjacent inputs between ordinary ones), and applies the validator; a raise inside the box is a violation unless it matches one of the two listed known findings (n = 0; capitalised extreme coefficient below 1e-3), which are replayed from the corpus on every run - and for the second, class-wide one the share of raising calls is bounded (12%), so that a change which makes that class fail wholesale is still reported.",
+   note='''Trusted: Lean kernel + Mathlib, axioms propext/Classical.choice/Quot.sound, the compiled model driver executing the validator, the Python harness (float->Fraction, seed forcing by patching numpy.random.randint in the harness process, generators). ''' + "That the pipeline returns inside the box is explored. Two genuine defects are recorded in known_findings.json; the rate bound on the class-wide one is the only statistical criterion in the machinery (DESIGN.md 0.6).",
    technique="Lean 4 proven validator applied to every returned phase list + forced seeds",
    design="7/C07")
 CHECKS["C12"] = dict(
